@@ -61,6 +61,22 @@ static uint8_t vx_state_of_mon(void)
     }
 }
 static bool vx_state_agrees(uint8_t string_state) { return vx_state_of_mon() == string_state; }
+/* well-formedness of the monitor itself (an invariant of S-STR: the accumulator holds as many hex digits as the state says, the pending high surrogate is one) */
+static bool vx_mon_wf(void)
+{
+    switch (vx_mon.st) {
+    case STR_U1: return vx_mon.acc == 0;
+    case STR_U2: return vx_mon.acc <= 0xF;
+    case STR_U3: return vx_mon.acc <= 0xFF;
+    case STR_U4: return vx_mon.acc <= 0xFFF;
+    case STR_HS_BS: case STR_HS_U: return vx_mon.hi >= 0xD800 && vx_mon.hi <= 0xDBFF;
+    case STR_L1: return vx_mon.acc == 0 && vx_mon.hi >= 0xD800 && vx_mon.hi <= 0xDBFF;
+    case STR_L2: return vx_mon.acc <= 0xF && vx_mon.hi >= 0xD800 && vx_mon.hi <= 0xDBFF;
+    case STR_L3: return vx_mon.acc <= 0xFF && vx_mon.hi >= 0xD800 && vx_mon.hi <= 0xDBFF;
+    case STR_L4: return vx_mon.acc <= 0xFFF && vx_mon.hi >= 0xD800 && vx_mon.hi <= 0xDBFF;
+    default: return true;
+    }
+}
 /* the \u accumulators of the parser agree with the monitor (needed by the next call: DESIGN 3.6 "per saved state") */
 static bool vx_accumulators_agree(const struct json_parser* p)
 {
@@ -151,10 +167,7 @@ void h_parse_string(void)
     /* any monitor state that agrees with the saved parser state */
     vx_mon.st = nondet_int(); vx_mon.acc = nondet_u32(); vx_mon.hi = nondet_u32();
     __CPROVER_assume(vx_mon.st >= STR_TEXT && vx_mon.st <= STR_L4);
-    __CPROVER_assume(vx_mon.acc <= 0xFFFF && vx_mon.hi >= 0xD800 && vx_mon.hi <= 0xDBFF);
-    __CPROVER_assume((vx_mon.st == STR_U2 || vx_mon.st == STR_L2) ==> vx_mon.acc <= 0xF);
-    __CPROVER_assume((vx_mon.st == STR_U3 || vx_mon.st == STR_L3) ==> vx_mon.acc <= 0xFF);
-    __CPROVER_assume((vx_mon.st == STR_U4 || vx_mon.st == STR_L4) ==> vx_mon.acc <= 0xFFF);
+    __CPROVER_assume(vx_mon_wf());
     vx_saw_escape = nondet_bool(); vx_unspec = nondet_bool(); vx_w = nondet_size();
     vx_exp_len = nondet_size(); vx_exp_w = nondet_u8(); vx_sbuf_len = nondet_size(); vx_act_w = nondet_u8();
     vx_event = 0; vx_err_called = false; vx_cut = false; vx_lenient = false;
